@@ -562,10 +562,11 @@ func mutexLock(cc *callCtx) (Value, error) {
 		t.waitLock = ""
 		return Tuple{}, nil
 	}
-	if owner == t.id+1 {
-		_, tape := cc.ex.model(st)
-		cc.ex.violation(st, "deadlock", "mutex locked twice by the same task", cc.pos(), key, tape)
-		return nil, errPathEnd
+	if owner == t.id+1 && t.waitLock != key {
+		// sync.Mutex has no owner: the goroutine waits, for good unless some
+		// other goroutine unlocks. The task blocks like any other waiter, and
+		// the harness observes what does not happen any more.
+		st.note("self-deadlock: task %d locks %s again at %s", t.id, key, cc.pos())
 	}
 	t.waitLock = key
 	if err := cc.ex.block(st); err != nil {
